@@ -23,7 +23,7 @@ LEVEL = "model_checking"
 TECHNIQUE = "explicit-state BFS over operation histories on the real module globals, canonical-state dedup, dict reference model compared on every transition"
 CLAIM = (
     "Every history of set / update_defaults / refresh / device requests / with-set events up to depth 3 over the full alphabet (both tiers) and, in the thorough tier, up to depth 4 over the core alphabet (the events without the round-6 key / value content members) "
-    "(thorough) from the import-time state is executed on the real config module; after every transition get() on the "
+    "from the import-time state is executed on the real config module; after every transition get() on the "
     "whole key universe in both '-'/'_' spellings equals a nested-dict reference model, refresh equals the merge of the "
     "accumulated defaults, rejected device requests leave device and store unchanged, and leaving `with set(...)` restores "
     "the pre-entry values (also when one call writes the same entry twice, and for keys up to four levels deep); deeper histories are covered by deviation bounding (length 8, at most 1/2 positions replaced by any other event). Model checking is the right level because the property is about every history of a small state machine."
